@@ -149,9 +149,63 @@ def term(t, env):
     return acc
 
 
+INT_OPS = ["|", "^", "&", "<<", ">>", "+", "-", "*", "/", "%"]
+CMP_OPS = ["==", "!=", "<", ">", "<=", ">="]
+
+
+def _node(op, l, r):
+    return ("bin", op, l, r) if op in ("<<", ">>") or op in CMP_OPS else ("chain", [op], [l, r])
+
+
+def pair_trees():
+    """every operator directly under / beside every other one (both nestings), every unary operator over every operator it admits: the
+    seed-independent part of the expression set (a change that mistreats ONE operator combination must not depend on the seed to be seen)"""
+    A, B, C = ("atom", "n"), ("atom", "m"), ("atom", "b")
+    ints, bools = [], []
+    for o1 in INT_OPS:
+        for o2 in INT_OPS:
+            ints.append(_node(o2, _node(o1, A, B), C))
+            ints.append(_node(o2, A, _node(o1, B, C)))
+        ints.append(("neg", _node(o1, A, B)))
+        ints.append(_node(o1, ("neg", A), B))
+        ints.append(_node(o1, A, ("neg", B)))
+    ints.append(("neg", ("neg", A)))
+    for c in CMP_OPS:
+        bools.append(_node(c, A, B))
+        bools.append(("not", _node(c, A, B)))
+        bools.append(("not", ("not", _node(c, A, B))))
+        for o in INT_OPS:
+            bools.append(_node(c, _node(o, A, B), C))
+            bools.append(_node(c, A, _node(o, B, C)))
+        bools.append(_node(c, ("neg", A), B))
+        for l in ("||", "&&"):
+            bools.append(_node(l, _node(c, A, B), ("atom", "f")))
+            bools.append(_node(l, ("atom", "f"), ("not", _node(c, A, B))))
+    F, G_ = ("atom", "f"), ("atom", "g")
+    for l1 in ("||", "&&"):
+        bools.append(("not", _node(l1, F, G_)))
+        bools.append(_node(l1, ("not", F), G_))
+        for l2 in ("||", "&&"):
+            bools.append(_node(l2, _node(l1, F, G_), ("atom", "true")))
+            bools.append(_node(l2, F, _node(l1, G_, ("atom", "false"))))
+    return ints, bools
+
+
+def pair_programs():
+    ints, bools = pair_trees()
+    out = []
+    k = max(len(bools), (len(ints) + 1) // 2)
+    b1 = ("chain", ["||"], [("atom", "f"), ("not", ("atom", "g"))])
+    for i in range(k):
+        e1, e2, b2 = ints[(2 * i) % len(ints)], ints[(2 * i + 1) % len(ints)], bools[i % len(bools)]
+        src = HEAD + "parser { " + f'"q"; n = [{show(e1)}]; "r"; f = [{show(b1)}]; "s"; if {show(b2)} {{ h(); }} "t"; x += [{show(e2)}]; "v"; if {show(e2)} {{ h(); }} "z"; ' + "}\n"
+        out.append({"name": f"pair/{i}", "src": src, "args": [], "path": None, "trees": {"n": e1, "f": b1, "if": b2, "append": e2, "ifint": e2}})
+    return out
+
+
 def programs(n, seed):
     rnd = random.Random(seed * 977 + 11)
-    out = []
+    out = pair_programs()
     for i in range(n):
         g = G(rnd)
         d = rnd.choice([1, 2, 2, 3])
